@@ -415,6 +415,19 @@ FullObs World::observe()
             auto c = d.crate_by_id(id);
             return std::string(c ? std::to_string(c->id()) : "-");
         }));
+    // lookup by path: every path a track has now or was seen to have earlier (a stale answer for a path no track has any
+    // more is an observable difference, e.g. before / after reload)
+    for (auto& kv : o.track)
+        if (kv.second.have_snapshot && kv.second.snapshot.relative_path && seen_paths.size() < 40)
+            seen_paths.insert(*kv.second.snapshot.relative_path);
+    for (auto& pth : seen_paths)
+        o.lookups.emplace_back("tracks_by_relative_path:" + rs(pth), guard_str([&] {
+            std::vector<int64_t> ids;
+            for (auto& t : d.tracks_by_relative_path(pth))
+                ids.push_back(t.id());
+            std::sort(ids.begin(), ids.end());
+            return ids_str(ids);
+        }));
     std::set<std::string> names;
     for (auto& kv : o.crate)
         if (kv.second.name_ok)
